@@ -35,10 +35,29 @@ def catalog_digest(cat):
     for p in cat:
         d = cat[p].load_data()
         per[str(int(p))] = [int(len(d)), h(np.sort(d, order=list(d.dtype.names)).tobytes())]
-    meta = {str(int(p)): [int(cat[p].meta.num_records), round(float(cat[p].meta.sum_weights), 9),
-                          [round(float(x), 12) for x in cat[p].meta.center.data[0]], round(float(cat[p].meta.radius.data[0]), 12)]
+    # numeric metadata (compared with a tolerance: the row order inside a patch file depends on the
+    # order in which the parts reach the writer, so means and sums differ in the last bits)
+    meta = {str(int(p)): [int(cat[p].meta.num_records), float(cat[p].meta.sum_weights),
+                          [float(x) for x in cat[p].meta.center.data[0]], float(cat[p].meta.radius.data[0])]
             for p in cat}
     return dict(per_patch=per, meta=meta, keys=[int(k) for k in cat.keys()])
+
+
+def same_result(a, b):
+    """Equality of two driver results; catalog metadata to 1e-9 (absolute, radian / relative for sums)."""
+    if isinstance(a, dict) and isinstance(b, dict) and "meta" in a and "meta" in b:
+        if {k: v for k, v in a.items() if k != "meta"} != {k: v for k, v in b.items() if k != "meta"}:
+            return False
+        if a["meta"].keys() != b["meta"].keys():
+            return False
+        for k in a["meta"]:
+            (n1, s1, c1, r1), (n2, s2, c2, r2) = a["meta"][k], b["meta"][k]
+            if n1 != n2 or abs(s1 - s2) > 1e-9 * max(1.0, abs(s2)) or abs(r1 - r2) > 1e-9:
+                return False
+            if max(abs(c1[0] - c2[0]), abs(c1[1] - c2[1])) > 1e-9:
+                return False
+        return True
+    return a == b
 
 
 def corrfunc_digest(cfs):
